@@ -864,3 +864,52 @@ def rule_keep_complement(ctx: Ctx, rels: List[str]) -> None:
                              func=qualname(fn), construct=f"{qualname(fn)}: keep={short(k, 50)}")
     if n == 0:
         raise AnalysisError("trace.keep-complement: no trace_out method delegating to a keep= partial trace was found")
+
+
+# --------------------------------------------------------------------------- measure.basis-restored
+
+
+def rule_basis_restored(ctx: Ctx) -> None:
+    """measure.basis-restored: measure_x / measure_y rotate the measured qubit into the Z basis (H, resp. P_dag then H), measure it with
+    z_measurement_gate — all in place on the caller's tableau — and return only the outcome.  The rotation must be undone afterwards
+    (the product of the gates applied after the measurement and those applied before it is the identity); otherwise the caller's
+    tableau is left collapsed *and rotated*: measuring |+> in X leaves it in |0>."""
+    from .. import clifford as cl
+    from . import gatesum
+    repo = ctx.repo
+    m = repo.module(CLIFF)
+    n = 0
+    for fn in [f for f in m.tree.body if isinstance(f, ast.FunctionDef) and f.name.startswith("measure_")]:
+        meas = [c for c in calls_in(fn) if (call_attr(c) or getattr(c.func, "id", "")) == "z_measurement_gate"]
+        if len(meas) != 1:
+            continue
+        q = func_params(fn)[1]
+        before, after = [], []
+        for c in sorted(calls_in(fn), key=lambda c: (c.lineno, c.col_offset)):
+            nm = call_attr(c) or getattr(c.func, "id", "")
+            if c is meas[0] or nm == "z_measurement_gate" or len(c.args) != 2 or norm(c.args[1]) != q:
+                continue
+            try:
+                kind, u = gatesum.summarise(repo, nm)
+            except Exception:
+                continue
+            if kind != "1":
+                continue
+            (before if (c.lineno, c.col_offset) < (meas[0].lineno, meas[0].col_offset) else after).append((nm, u))
+        n += 1
+        ctx.touch(m, fn)
+        if not before:
+            ctx.ok("measure.basis-restored", m, meas[0], what=f"{fn.name}: no basis change")
+            continue
+        tot = cl.I2
+        for nm, u in before + after:
+            tot = cl.mm(u, tot)
+        if cl.key(tot) == cl.key(cl.I2):
+            ctx.ok("measure.basis-restored", m, meas[0], what=f"{fn.name}: {[b for b, _ in before]} undone by {[a for a, _ in after]}")
+        else:
+            ctx.fail("measure.basis-restored", m, meas[0],
+                     f"{fn.name} rotates qubit `{q}` with {[b for b, _ in before]} before the Z measurement and applies {[a for a, _ in after] or 'nothing'} after it: "
+                     f"the caller's tableau is left in the rotated frame (measuring |+> in the X basis leaves the qubit in |0>, not |+>)",
+                     func=fn.name, construct=f"{fn.name}: basis change not undone")
+    if n == 0:
+        raise AnalysisError("measure.basis-restored: no measure_* function found")
